@@ -925,6 +925,16 @@ func (*SessionWindow).sendResult
   ensures a-batch-is-booked-once-as-sent-or-as-dropped-unless-the-window-is-stopping: (sw.sentCount - old(sw.sentCount)) + (sw.droppedCount - old(sw.droppedCount)) + (ghost(dones) - old(ghost(dones))) == 1
   ensures it-is-booked-as-sent-exactly-when-it-was-put-on-the-output-channel: sw.sentCount - old(sw.sentCount) == ghost(sends) - old(ghost(sends)) && sw.sentCount >= old(sw.sentCount) && sw.droppedCount >= old(sw.droppedCount)
 
+// processing time: sessions are looked over at every tick of a timer that runs twice per timeout, and only then
+func (*SessionWindow).startProcessingTime$1
+  props C10 C02 C04
+  modifies *
+  count ticks := select@2#0
+  count scans := checkExpiredSessions
+  before NewTicker expiry-is-looked-for-twice-per-timeout: $arg0 == sw.timeout / 2
+  before checkExpiredSessions sessions-are-looked-over-because-the-timer-ticked: $selected == 0
+  loop 1 invariant every-tick-so-far-was-followed-by-one-look-over-the-sessions: $scans == $ticks
+
 // every watermark the session window receives is acted on: the open sessions are scanned against it, none is skipped
 func (*SessionWindow).startEventTime$1
   props C10 C02 C04
